@@ -277,7 +277,7 @@ def worker_main(argv):
                     raise AssertionError(kind)
 
     if part.fuzz is not None and bucket is None:
-        return fuzz_worker(part, one, rec, out, seed, shard, n)
+        return fuzz_worker(part, one, rec, out, seed, shard, n, tier)
     if part.enum is not None:
         for case in part.enum(shard, nshards, tier):
             one(case)
@@ -312,7 +312,7 @@ def worker_main(argv):
     return 0
 
 
-def fuzz_worker(part, one, rec, out, seed, shard, n):
+def fuzz_worker(part, one, rec, out, seed, shard, n, tier="quick"):
     """coverage-guided tier: libFuzzer mutates the byte stream that Hypothesis turns into cases.
 
     atheris.Fuzz() never returns (libFuzzer exits the process, atexit handlers do not run), so the
@@ -350,7 +350,7 @@ def fuzz_worker(part, one, rec, out, seed, shard, n):
         with open(os.path.join(corpus, f"seed{i:02d}"), "wb") as f:
             f.write(srng.integers(0, 256, ln, dtype=np.uint8).tobytes())
     rec.dump(out, extra={"fuzz_runs": 0})
-    argv = [sys.argv[0], corpus, f"-runs={runs}", f"-max_total_time={int(part.fuzz.get('time', 120))}",
+    argv = [sys.argv[0], corpus, f"-runs={runs}", f"-max_total_time={int(part.fuzz.get('time_thorough', 300) if tier == 'thorough' else part.fuzz.get('time', 30))}",
             f"-seed={seed * 1000 + shard + 1}", "-max_len=4096", "-print_final_stats=0", "-verbosity=0"]
     try:
         atheris.Setup(argv, test.hypothesis.fuzz_one_input)
